@@ -183,7 +183,7 @@ func LoadSites() bool {
 			siteClass[s.ID] = ClassGradRule
 		case strings.Contains(s.Pos, "/gradtrack/back_propagation") || (strings.Contains(s.Pos, "/gradtrack/") && (s.Kind == "for" || s.Kind == "range")):
 			siteClass[s.ID] = ClassBackprop
-		case strings.Contains(s.Fn, "Rand") || strings.Contains(s.Fn, "RandomTensor") || strings.Contains(s.Pos, "/initializers/"):
+		case strings.Contains(s.Fn, "Rand") || strings.Contains(s.Pos, "/initializers/") || strings.Contains(s.Pos, "cputensor/initializers.go") && (strings.Contains(s.Fn, "Source") || strings.Contains(s.Fn, "Seed") || strings.Contains(s.Fn, "Sampl") || strings.Contains(s.Fn, "Deviate") || strings.Contains(s.Fn, "Uniform") || strings.Contains(s.Fn, "Normal") || strings.Contains(s.Fn, "uniform") || strings.Contains(s.Fn, "normal")):
 			siteClass[s.ID] = ClassRNG
 		case strings.Contains(s.Fn, "ElemGenerator") || strings.Contains(s.Fn, "initWith") ||
 			strings.Contains(s.Fn, "calcData") || strings.Contains(s.Fn, "copyData") || strings.Contains(s.Fn, "fill"):
